@@ -6,7 +6,8 @@ MODULE = "NadaVerif.Props.C11"
 TRANSLATORS = None
 THEOREMS = [f"NadaVerif.C11.{n}" for n in (
     "schema_roundtrip", "store_straight_line", "call_binding", "call_arity_rejected", "reduce_binding",
-    "literal_return_rejected", "all_literal_params_rejected", "fn_record")] + ["NadaVerif.C12.map_type"]
+    "literal_return_rejected", "all_literal_params_rejected", "fn_record", "call_keyword_binding", "call_mixed_binding",
+    "call_unexpected_keyword_rejected", "fn_emitted_once")] + ["NadaVerif.C12.map_type"]
 
 
 def restrictions(rec):
